@@ -185,12 +185,15 @@ class Plain:
 PLAIN = Plain()
 VALUES = {'int': [3, 0, -2], 'float': [2.5, -1.5], 'bool': [True, False], 'str': ['ab', ''], 'list': [[1, 2], []], 'tuple': [(1, 2), ()],
           'dict': [{'a': 1}], 'set': [{1, 2}], 'none': [None], 'complex': [1 + 2j], 'money': [Money(5)], 'card': [Card(11, 'hearts')], 'gauge': [Gauge([4, 7]), Gauge([])], 'record': [REC], 'reclist': [[REC, 1]], 'dict2': [{'a': 2, 'b': 3}],
-          'frozenset': [frozenset({1, 3})], 'plain': [PLAIN], 'nan': [float('nan')], 'odd': [Odd()]}
+          'frozenset': [frozenset({1, 3})], 'plain': [PLAIN], 'nan': [float('nan')], 'odd': [Odd()],
+          'type': [int, str]}                      # a class as a value (evaluate("int"), a class the student returns)
 BINOPS = {'add': operator.add, 'sub': operator.sub, 'mul': operator.mul, 'matmul': operator.matmul, 'truediv': operator.truediv,
           'floordiv': operator.floordiv, 'mod': operator.mod, 'divmod': divmod, 'pow': pow, 'lshift': operator.lshift,
           'rshift': operator.rshift, 'and': operator.and_, 'xor': operator.xor, 'or': operator.or_,
           'eq': operator.eq, 'ne': operator.ne, 'lt': operator.lt, 'le': operator.le, 'gt': operator.gt, 'ge': operator.ge,
-          'contains': lambda c, x: x in c, 'getitem': operator.getitem, 'pow3': lambda a, b: pow(a, b, 5)}
+          'contains': lambda c, x: x in c, 'getitem': operator.getitem, 'pow3': lambda a, b: pow(a, b, 5),
+          'pow3mod': lambda a, b: pow(a, 3, b),           # the modulus is an operand too
+          'isinstance_of': lambda c, x: isinstance(x, c), 'issubclass_of': lambda c, x: issubclass(bool, c)}     # (only the class operand can be a proxy: arg 1 must be a real class)
 UNOPS = {'neg': operator.neg, 'pos': operator.pos, 'abs': abs, 'invert': operator.invert, 'int': int, 'float': float, 'complex': complex,
          'round': round, 'round1': lambda v: round(v, 1), 'trunc': math.trunc, 'floor': math.floor, 'ceil': math.ceil, 'len': len,
          'hash': hash, 'bool': bool, 'str': str, 'repr': repr, 'format': lambda v: format(v, ''), 'fmt10': lambda v: '{:>10}'.format(v),
